@@ -1,10 +1,11 @@
 import PrefVerif.Model.OrdinalStats
+import PrefVerif.Spec.Ordinal
 /-!
 Property theorems for the indifference-class statistics of `properties/basic.py`
 (part of C02: the statistics are functions of the stored orders alone).
 -/
 namespace PrefVerif.C02Indif
-open PrefVerif PrefVerif.Ordinal PrefVerif.Py
+open PrefVerif PrefVerif.Ordinal PrefVerif.Py PrefVerif.Spec
 
 theorem foldl_max_spec (l : List Nat) (a : Nat) :
     a ≤ l.foldl max a ∧ (∀ x ∈ l, x ≤ l.foldl max a) ∧ (l.foldl max a = a ∨ l.foldl max a ∈ l) := by
@@ -87,6 +88,72 @@ theorem isStrict_maxNumIndif (s : OrdState) (h : isStrict s = true) : maxNumIndi
       have h1 : largestIndif s = 1 := by simpa using h
       simp; omega
     · simp; omega
+
+
+/-! ### the statistics are functions of the multiset of votes added (C02: "ballot-size statistics
+agree with that multiset") -/
+
+theorem foldl_max_congr_mem (l l' : List Nat) (a : Nat) (h : ∀ x, x ∈ l ↔ x ∈ l') :
+    l.foldl max a = l'.foldl max a := by
+  obtain ⟨h1, h2, h3⟩ := foldl_max_spec l a
+  obtain ⟨k1, k2, k3⟩ := foldl_max_spec l' a
+  apply Nat.le_antisymm
+  · rcases h3 with e | e
+    · omega
+    · exact k2 _ ((h _).1 e)
+  · rcases k3 with e | e
+    · omega
+    · exact h2 _ ((h _).2 e)
+
+theorem foldl_min_congr_mem (l l' : List Nat) (a : Nat) (h : ∀ x, x ∈ l ↔ x ∈ l') :
+    l.foldl min a = l'.foldl min a := by
+  obtain ⟨h1, h2, h3⟩ := foldl_min_spec l a
+  obtain ⟨k1, k2, k3⟩ := foldl_min_spec l' a
+  apply Nat.le_antisymm
+  · rcases k3 with e | e
+    · omega
+    · exact h2 _ ((h _).2 e)
+  · rcases h3 with e | e
+    · omega
+    · exact k2 _ ((h _).1 e)
+
+/-- the statistics computed from the list of votes itself (with repetitions, in the order added) -/
+def votesMaxNumIndif (v : List Order) : Nat := (v.map numIndif).foldl max 0
+def votesMinNumIndif (n : Nat) (v : List Order) : Nat := (v.map numIndif).foldl min n
+def votesLargestIndif (v : List Order) : Nat := ((v.flatten.map List.length).filter (· > 0)).foldl max 0
+def votesSmallestIndif (n : Nat) (v : List Order) : Nat := ((v.flatten.map List.length).filter (· > 0)).foldl min n
+
+/-- In every state consistent with the votes added (every reachable state, by `C02.invariant`), the
+four indifference statistics equal the statistics of the votes themselves, however batched. -/
+theorem indif_stats_of_votes {s : OrdState} {v : List Order} (hc : Consistent s v) :
+    maxNumIndif s = votesMaxNumIndif v ∧ minNumIndif s = votesMinNumIndif s.numAlternatives v ∧
+    largestIndif s = votesLargestIndif v ∧ smallestIndif s = votesSmallestIndif s.numAlternatives v := by
+  have hm : ∀ x, x ∈ s.orders.map numIndif ↔ x ∈ v.map numIndif := by
+    intro x; simp only [List.mem_map]
+    constructor
+    · rintro ⟨o, ho, e⟩; exact ⟨o, (hc.support o).1 ho, e⟩
+    · rintro ⟨o, ho, e⟩; exact ⟨o, (hc.support o).2 ho, e⟩
+  have hf : ∀ x, x ∈ (s.orders.flatten.map List.length).filter (· > 0) ↔
+      x ∈ (v.flatten.map List.length).filter (· > 0) := by
+    intro x; simp only [List.mem_filter, List.mem_map, List.mem_flatten]
+    constructor
+    · rintro ⟨⟨c, ⟨o, ho, hco⟩, e⟩, hp⟩; exact ⟨⟨c, ⟨o, (hc.support o).1 ho, hco⟩, e⟩, hp⟩
+    · rintro ⟨⟨c, ⟨o, ho, hco⟩, e⟩, hp⟩; exact ⟨⟨c, ⟨o, (hc.support o).2 ho, hco⟩, e⟩, hp⟩
+  exact ⟨foldl_max_congr_mem _ _ _ hm, foldl_min_congr_mem _ _ _ hm,
+    foldl_max_congr_mem _ _ _ hf, foldl_min_congr_mem _ _ _ hf⟩
+
+/-- regrouping / reordering the same votes cannot change the statistics -/
+theorem indif_stats_regroup {s s' : OrdState} {v v' : List Order} (hc : Consistent s v)
+    (hc' : Consistent s' v') (hp : ∀ o, o ∈ v ↔ o ∈ v') :
+    maxNumIndif s = maxNumIndif s' ∧ largestIndif s = largestIndif s' := by
+  have hs : ∀ o, o ∈ s.orders ↔ o ∈ s'.orders := fun o =>
+    (hc.support o).trans ((hp o).trans (hc'.support o).symm)
+  refine ⟨foldl_max_congr_mem _ _ _ ?_, foldl_max_congr_mem _ _ _ ?_⟩
+  · intro x; simp only [List.mem_map]
+    exact ⟨fun ⟨o, ho, e⟩ => ⟨o, (hs o).1 ho, e⟩, fun ⟨o, ho, e⟩ => ⟨o, (hs o).2 ho, e⟩⟩
+  · intro x; simp only [List.mem_filter, List.mem_map, List.mem_flatten]
+    exact ⟨fun ⟨⟨c, ⟨o, ho, hco⟩, e⟩, hp⟩ => ⟨⟨c, ⟨o, (hs o).1 ho, hco⟩, e⟩, hp⟩,
+      fun ⟨⟨c, ⟨o, ho, hco⟩, e⟩, hp⟩ => ⟨⟨c, ⟨o, (hs o).2 ho, hco⟩, e⟩, hp⟩⟩
 
 -- non-vacuity: a concrete weak profile
 example : maxNumIndif { init with orders := [[[1,2],[3]], [[1],[2],[3]]], numAlternatives := 3 } = 1 ∧
